@@ -37,15 +37,28 @@ def baseline():
     cmds = [
         ["cmake", "-S", REPO, "-B", bdir, "-DCMAKE_BUILD_TYPE=RelWithDebInfo", "-DCMAKE_CXX_FLAGS=-Wno-error"] + gen,
         ["cmake", "--build", bdir, "--target", "tests", "-j", "16"],
-        ["ctest", "--test-dir", bdir, "-j8", "--timeout", "3000", "--output-on-failure"],
     ]
     for c in cmds:
         print("+", " ".join(c), flush=True)
-        rc = subprocess.call(c)
+        rc = subprocess.call(c, stdout=subprocess.DEVNULL if c[1] == "--build" else None, stderr=subprocess.STDOUT if c[1] == "--build" else None)
         if rc != 0:
+            print("baseline: build failed", flush=True)
             return 1
-    # per-test-case listing (the 45 Catch2 test cases of BASELINE.json)
+    # one run of the test binary (what `ctest` runs as test_all), with a JUnit report for the per-test-case listing
     exe = os.path.join(bdir, "test", "tests")
-    if os.path.exists(exe):
-        subprocess.call([exe, "--list-test-names-only"])
-    return 0
+    junit = os.path.join(bdir, "junit.xml")
+    print("+", exe, "-r junit -o", junit, flush=True)
+    rc = subprocess.call([exe, "-r", "junit", "-o", junit], cwd=os.path.join(bdir, "test"))
+    passed = failed = 0
+    try:
+        import xml.etree.ElementTree as ET
+        for tc in ET.parse(junit).getroot().iter("testcase"):
+            bad = tc.find("failure") is not None or tc.find("error") is not None
+            print(("FAIL " if bad else "PASS ") + "tests.global::" + tc.get("name", "?"))
+            failed += bad
+            passed += not bad
+    except Exception as e:  # noqa
+        print("baseline: could not parse the JUnit report:", e)
+        return 1
+    print(f"baseline (guard PGM_INDEX_VERIF off): {passed} passed, {failed} failed, exit status of the test binary {rc}")
+    return 0 if rc == 0 and failed == 0 and passed > 0 else 1
